@@ -628,16 +628,17 @@ def check_c05(repo, tier):
             return sc.method(a, 'pinv', index, threshold=thr, ortho_l=ol, ortho_r=orr)
         for ch, sc, res, exc in l2.explore(repo, body, typed=False):
             a = sc.inputs[0]
-            calls = [e for e in sc.events('call') if e['callee'].name == 'svd' and e['callee'].mod == TTM and e['args'] and e['args'][0] is a]
+            # (the receiver of the global SVD may be the tensor train itself or a working copy of it: the first TT.svd reached from pinv)
+            calls = [e for e in sc.events('call') if e['callee'].name == 'svd' and e['callee'].mod == TTM and e['callee'].cls == 'TT' and e['args']]
             if not calls:
                 raise AnalysisError(f'{scen}: TT.svd is not applied to the receiver: the way the pseudoinverse is formed is not one the option rule recognises')
             c = calls[0]
             argd = dict(zip(['self', 'index', 'threshold', 'max_rank', 'ortho_l', 'ortho_r', 'overwrite'], c['args']))
             argd.update(c['kwargs'])
             good = argd.get('index') == index and argd.get('threshold', 0.0) == thr and argd.get('ortho_l', True) is ol and argd.get('ortho_r', True) is orr
+            shown = {k_: v_ for k_, v_ in argd.items() if k_ not in ('self', 'overwrite')}
             run.oblige('D2', (entry, scen), good)
             if not good:
-                shown = {k_: v_ for k_, v_ in argd.items() if k_ != 'self'}
                 run.add(finding(entry, 'D2 options of the global SVD', f'{scen}: TT.svd is called with {shown} instead of index={index}, threshold={thr}, ortho_l={ol}, ortho_r={orr}'))
     l2rules.frame_obligations(run, 'C05', 'D3', repo, [f'{TTM}.TT.svd', f'{TTM}.TT.pinv'])
     run.floor('obligations decided', run.obligations, 60)
